@@ -1502,6 +1502,13 @@ class Engine:
             seq = self.ev(it.args[0], st)
             if isinstance(seq, Ref) and st.heap[seq.base].kind in ("setlist", "list") and not seq.prefix:
                 return self.for_list(s, st, seq, index_name=s.target.elts[0].id, item_name=s.target.elts[1].id)
+        if isinstance(it, ast.Call) and isinstance(it.func, ast.Attribute) and it.func.attr == "items" and not it.args \
+                and isinstance(s.target, ast.Tuple) and len(s.target.elts) == 2 \
+                and all(isinstance(e, ast.Name) for e in s.target.elts) and not self.concrete:
+            d = self.ev(it.func.value, st)
+            if isinstance(d, Ref) and st.heap[d.base].kind == "dict" and not d.prefix and st.heap[d.base].ndim == 1 \
+                    and st.heap[d.base].arr is not None:
+                return self.for_items(s, st, d)
         if isinstance(s.target, ast.Name) and not self.concrete:
             seq = self.ev(it, st)
             if isinstance(seq, PyObj) and seq.kind == "strlist":
@@ -1658,6 +1665,45 @@ class Engine:
                 s2.env[v] = PyObj("undefined")
         return res
 
+    def for_items(self, s, st, d):
+        """`for k, v in d.items()`: the keys in an arbitrary order (as for sets, ghost seen_<k>), v = d[k]"""
+        k, spec = self.loop_spec(s)
+        if spec is None:
+            raise ContractError("for loop #%d (line %d) over dict items has no invariant in the sidecar" % (k, s.lineno))
+        kv, vv = s.target.elts[0].id, s.target.elts[1].id
+        gname = "seen_" + kv
+        st.env[gname] = self.new_array(st, gname, "bool", 1, arr=z3.K(I, z3.BoolVal(False)), kind="set")
+        gbase, dbase = st.env[gname].base, d.base
+        from pyvc import externals
+        externals.USED.add("dict.items(): every key once, in an arbitrary order, with its value")
+
+        def cond(stt):
+            x = fresh(kv, I)
+            stt.env[kv] = x
+            stt.env[vv] = z3.Select(stt.heap[dbase].arr, x)
+            stt.pc.append(z3.Select(stt.heap[dbase].dom, x))
+            stt.pc.append(z3.Not(z3.Select(stt.heap[gbase].arr, x)))
+            return z3.BoolVal(True)
+
+        def exit_cond(stt):
+            j = z3.Int("dj!%d" % next(_fresh))
+            return z3.ForAll([j], z3.Implies(z3.Select(stt.heap[dbase].dom, j), z3.Select(stt.heap[gbase].arr, j)))
+
+        def step(stt):
+            ho = stt.heap[gbase]
+            stt.heap[gbase] = ho.replace(arr=z3.Store(ho.arr, to_z3(stt.env[kv]), z3.BoolVal(True)))
+
+        def auto(stt):
+            j = z3.Int("dj!%d" % next(_fresh))
+            return z3.ForAll([j], z3.Implies(z3.Select(stt.heap[gbase].arr, j), z3.Select(stt.heap[dbase].dom, j)))
+        res = self.cut_loop(s, st, k, spec, cond=cond, body=s.body, step=step, hidden={},
+                            auto=("seen_subset", "seen ⊆ keys", auto), exit_cond=exit_cond, extra_bases={gname})
+        for kind, s2, val in res:
+            if kind == "normal":
+                s2.env[kv] = PyObj("undefined")
+                s2.env[vv] = PyObj("undefined")
+        return res
+
     def for_range(self, s, st):
         if not isinstance(s.target, ast.Name):
             raise Unsupported("for target")
@@ -1736,6 +1782,12 @@ class Engine:
             if p in (c.fixed or {}):
                 st.env[p] = c.fixed[p]
                 continue
+            if ty.kind == "intdict":
+                base = "in_%s#%d" % (p, next(_fresh))
+                st.heap[base] = HeapObj(z3.Const(base, arr_sort(ty.elem, 1)), [z3.IntVal(0)], ty.elem, 1, "dict",
+                                        dom=z3.Const(base + ".dom", z3.ArraySort(I, B)))
+                st.env[p] = Ref(base)
+                continue
             if ty.kind == "rowdict":
                 base = "in_%s#%d" % (p, next(_fresh))
                 st.heap[base] = HeapObj(z3.Const(base, arr_sort(ty.elem, 2)), [z3.IntVal(0), z3.IntVal(ty.width)], ty.elem, 2,
@@ -1753,6 +1805,11 @@ class Engine:
         for key, ty in (c.fields or {}).items():
             if ty.kind == "obj":
                 st.env[key] = PyObj("object", key)
+            elif ty.kind == "intdict":
+                base = "in_%s#%d" % (key, next(_fresh))
+                st.heap[base] = HeapObj(z3.Const(base, arr_sort(ty.elem, 1)), [z3.IntVal(0)], ty.elem, 1, "dict",
+                                        dom=z3.Const(base + ".dom", z3.ArraySort(I, B)))
+                st.env[key] = Ref(base)
             elif ty.kind in ("arr", "list"):
                 ref = self.new_array(st, "in_" + key, ty.elem, ty.ndim, kind=ty.kind)
                 st.env[key] = ref
@@ -1851,8 +1908,10 @@ class Engine:
                 p2 = post.fork()
                 p2.old = entry
                 # parameters in postconditions denote their ENTRY values for scalars, current heap for arrays
+                # (fragments: the live-in variables are ordinary variables, they denote their current values and
+                # old(x) their values at the entry of the fragment)
                 for p in c.param_names:
-                    if not isinstance(entry.env[p], (Ref, PyObj)) or p in (c.fixed or {}):
+                    if frag is None and (not isinstance(entry.env[p], (Ref, PyObj)) or p in (c.fixed or {})):
                         p2.env[p] = entry.env[p]
                 goal = to_bool(self.evc(src, p2))
                 self.emit("%s.ensures.%s" % (fn, name), "postcondition", p2, goal, note=src)
